@@ -108,6 +108,20 @@ class Call:
             return o[1]
         return None
 
+    def arg_lit(self, i, P):
+        """string literal behind argument i: a direct constant, or a literal compared by reference (a promoted constant of the body that owns
+        the call — after helper look-through that is the helper, recorded as promoted_owner)"""
+        s_ = self.arg_str(i)
+        if s_ is not None:
+            return s_
+        k_ = self.const_arg(i)
+        if k_ and "promoted" in k_:
+            owner = k_.get("promoted_owner") or self.fn.id
+            pb = P.fns.get("%s::{promoted#%d}" % (owner, k_["promoted"]))
+            strs = pb.const_strs() if pb else []
+            return strs[0] if len(set(strs)) == 1 else None
+        return None
+
     def arg_str(self, i):
         """string-literal constant argument i, else None"""
         c = self.const_arg(i)
@@ -309,9 +323,15 @@ class Fn:
             d = defaultdict(list)
             for l in range(1, self.arg_count + 1):
                 d[l].append(("arg",))
+            dup_seen = set()
             for b, blk in enumerate(self.blocks):
                 for i, st in enumerate(blk["stmts"]):
                     if "lhs" in st and not st["lhs"].get("p"):
+                        # copies of one statement made by jump threading are one definition
+                        key = (blk.get("dup_of", b), i, st["lhs"]["l"])
+                        if key in dup_seen:
+                            continue
+                        dup_seen.add(key)
                         d[st["lhs"]["l"]].append(("stmt", b, i, st["rv"]))
                 t = blk["term"]
                 if t["k"] == "call" and not t["dest"].get("p"):
@@ -728,9 +748,17 @@ class Fn:
                     out.append((b, lab, self.cond_struct(b, lab)))
         return out
 
-    def must_conditions(self, b):
-        """canonical texts of the branch outcomes that necessarily hold when block b runs"""
-        return sorted(set(self.describe_cond(a, lab) for a, lab in self.edge_dominators(b)))
+    def must_conditions(self, b, sequencing=True):
+        """canonical texts of the branch outcomes that necessarily hold when block b runs.  sequencing=False leaves out the success edges of
+        earlier `?` steps: they say that b comes after a fallible step, not that anything guards it"""
+        out = set()
+        for a, lab in self.edge_dominators(b):
+            if not sequencing:
+                o, outcome = self.cond_struct(a, lab)
+                if o[0] == "call" and strip_generics_(o[1].path) == "std::ops::Try::branch" and outcome == "Continue":
+                    continue
+            out.add(self.describe_cond(a, lab))
+        return sorted(out)
 
     def conditions_text(self, b):
         return sorted(set(self.describe_cond(a, lab) for a, lab in self.control_conditions(b)))
@@ -875,6 +903,409 @@ def short_path(p):
     return "::".join(parts[-2:]) if len(parts) >= 2 else q
 
 
+# ---------------------------------------------------------------------------------------------------------------- helper look-through
+# Rules are anchored on the functions of the pinned tree.  A later clean-up may move part of such a function into a new private helper; the
+# property then has to be decided on the caller *with* that helper, not on whichever half happens to keep the old name.  Calls to crate functions
+# that did not exist at the pinned commit (tables/pinned_functions.json) are therefore spliced into their callers before any rule runs (real
+# MIR inlining on the fact level: renumbered locals and blocks, arguments assigned to the callee's parameter locals, `return` turned into an
+# assignment of the destination plus a goto).  The helper itself stays in the program as well.
+INLINE_DEPTH = 4
+INLINE_MAX_BLOCKS = 4000
+
+
+def _remap_place(p, lo):
+    q = dict(p)
+    q["l"] = p["l"] + lo
+    if p.get("p"):
+        q["p"] = [({**pj, "l": pj["l"] + lo} if pj.get("k") == "index" and "l" in pj else pj) for pj in p["p"]]
+    return q
+
+
+def _remap_operand(o, lo, owner):
+    if not isinstance(o, dict):
+        return o
+    if "copy" in o:
+        return {"copy": _remap_place(o["copy"], lo)}
+    if "move" in o:
+        return {"move": _remap_place(o["move"], lo)}
+    if "const" in o and isinstance(o["const"], dict) and "promoted" in o["const"] and "promoted_owner" not in o["const"]:
+        c = dict(o["const"])
+        c["promoted_owner"] = owner
+        return {"const": c}
+    return o
+
+
+def _remap_rvalue(rv, lo, owner):
+    out = {}
+    for k, v in rv.items():
+        if k in ("op", "a", "b"):
+            out[k] = _remap_operand(v, lo, owner)
+        elif k == "ops":
+            out[k] = [_remap_operand(x, lo, owner) for x in v]
+        elif k == "place":
+            out[k] = _remap_place(v, lo)
+        else:
+            out[k] = v
+    return out
+
+
+def _remap_block(blk, lo, bo, owner):
+    nb = {"stmts": [], "inl": owner}
+    if blk.get("cleanup"):
+        nb["cleanup"] = True
+    for st in blk["stmts"]:
+        ns = dict(st)
+        if "lhs" in st:
+            ns["lhs"] = _remap_place(st["lhs"], lo)
+        if "rv" in st:
+            ns["rv"] = _remap_rvalue(st["rv"], lo, owner)
+        if "setdiscr" in st:
+            ns["setdiscr"] = _remap_place(st["setdiscr"], lo)
+        nb["stmts"].append(ns)
+    t = dict(blk["term"])
+    for key in ("target", "unwind", "otherwise"):
+        if key in t and isinstance(t[key], int):
+            t[key] = t[key] + bo
+    if "targets" in t:
+        t["targets"] = [[v, b + bo] for v, b in t["targets"]]
+    for key in ("discr", "func", "cond", "len", "index", "a", "b"):
+        if key in t and isinstance(t[key], dict):
+            t[key] = _remap_operand(t[key], lo, owner)
+    if "args" in t:
+        t["args"] = [_remap_operand(a, lo, owner) for a in t["args"]]
+    for key in ("dest", "place"):
+        if key in t and isinstance(t[key], dict):
+            t[key] = _remap_place(t[key], lo)
+    nb["term"] = t
+    return nb
+
+
+def inline_helpers(raw, should_inline):
+    """raw: {fn id: fact dict}.  Returns {fn id: fact dict with helper calls spliced in} for the functions that changed."""
+    changed = {}
+    for fid, d in raw.items():
+        blocks = None
+        stacks = None
+        i = 0
+        n_inl = 0
+        src_blocks = d["blocks"]
+        while i < len(blocks if blocks is not None else src_blocks):
+            cur = blocks if blocks is not None else src_blocks
+            blk = cur[i]
+            t = blk["term"]
+            if t["k"] == "call" and "const" in t.get("func", {}):
+                fnc = t["func"]["const"].get("fn") or {}
+                res = fnc.get("resolved") if fnc.get("rkind") not in ("unresolved", "error", None, "virtual") else None
+                stack = stacks[i] if stacks is not None else ()
+                if res and res in raw and res != fid and res not in stack and should_inline(res) and len(stack) < INLINE_DEPTH \
+                        and len(cur) + len(raw[res]["blocks"]) < INLINE_MAX_BLOCKS and "target" in t and not t["dest"].get("p"):
+                    if blocks is None:
+                        blocks = [dict(b) for b in src_blocks]
+                        stacks = [() for _ in blocks]
+                        locals_ = list(d["locals"])
+                        vars_ = list(d.get("vars", []))
+                        blk = blocks[i]
+                    g = raw[res]
+                    lo = len(locals_)
+                    bo = len(blocks)
+                    locals_.extend(g["locals"])
+                    for v in g.get("vars", []):
+                        vars_.append({**v, "place": _remap_place(v["place"], lo)})
+                    for gb in g["blocks"]:
+                        nb = _remap_block(gb, lo, bo, res)
+                        tk = nb["term"]["k"]
+                        if tk == "return":
+                            nb["stmts"].append({"lhs": dict(t["dest"]), "rv": {"k": "use", "op": {"move": {"l": lo, "p": []}}}, "line": t.get("span", {}).get("line", 0)})
+                            nb["term"] = {"k": "goto", "target": t["target"], "span": nb["term"].get("span", {})}
+                        elif tk == "resume" and "unwind" in t:
+                            nb["term"] = {"k": "goto", "target": t["unwind"], "span": nb["term"].get("span", {})}
+                        blocks.append(nb)
+                        stacks.append(stack + (res,))
+                    pre = list(blk["stmts"])
+                    for k_, a in enumerate(t["args"]):
+                        pre.append({"lhs": {"l": lo + 1 + k_, "p": []}, "rv": {"k": "use", "op": a}, "line": t.get("span", {}).get("line", 0)})
+                    blocks[i] = {**blk, "stmts": pre, "term": {"k": "goto", "target": bo, "span": t.get("span", {}), "inlined_call": res}}
+                    n_inl += 1
+            i += 1
+        if blocks is not None:
+            nd = dict(d)
+            nd["blocks"] = blocks
+            nd["locals"] = locals_
+            nd["vars"] = vars_
+            nd["inlined"] = n_inl
+            changed[fid] = nd
+    return changed
+
+
+
+# ---------------------------------------------------------------------------------------------------------------- bool jump threading
+# `matches!(x, A | B)`, `let ok = a && b; if ok {..}` and a spliced-in helper that returns bool all *materialise* a decision as a bool local that
+# is assigned constants on several paths and switched on later.  Rules read branch conditions, so that indirection hides which test decided.
+# As rustc's own JumpThreading pass does (it is off at mir-opt-level=0), the tail from a constant assignment to the switch is duplicated with the
+# switch resolved: the conditions that led to `true` then lead straight to the true target.
+THREAD_MAX_REGION = 40
+
+
+def _succs_of(t, n):
+    k = t["k"]
+    outs = []
+    if k in ("goto", "drop", "assert", "call", "yield"):
+        if "target" in t:
+            outs.append(t["target"])
+    elif k == "switch":
+        outs.extend(x[1] for x in t["targets"])
+        outs.append(t["otherwise"])
+    return [o for o in outs if o < n]
+
+
+def thread_bool_switches(d):
+    """jump threading for switches on a bool local or on the discriminant of an enum local whose value is a known constant / variant on some of
+    the incoming paths: the region between the assignment and the switch is duplicated for that path with the switch resolved"""
+    blocks = d["blocks"]
+    locals_ = d["locals"]
+    changed = False
+    budget = 24
+    done = set()            # (switch block, source block) pairs already threaded
+    while budget > 0:
+        budget -= 1
+        n = len(blocks)
+        preds = [[] for _ in range(n)]
+        for i, b in enumerate(blocks):
+            for o in _succs_of(b["term"], n):
+                preds[o].append(i)
+        did = False
+        for s_i in range(n):
+            S = blocks[s_i]
+            t = S["term"]
+            if t["k"] != "switch" or S.get("cleanup"):
+                continue
+            pl = t["discr"].get("copy") or t["discr"].get("move")
+            if not pl or pl.get("p"):
+                continue
+            variants = None
+            enum_mode = False
+            entry_local = pl["l"]
+            prefix = S["stmts"]
+            if locals_[pl["l"]] != "bool":
+                found_d = None
+                for si in range(len(S["stmts"]) - 1, -1, -1):
+                    st = S["stmts"][si]
+                    if st.get("lhs", {}).get("l") == pl["l"] and not st["lhs"].get("p"):
+                        rv = st.get("rv") or {}
+                        if rv.get("k") == "discr" and not rv["place"].get("p") and rv.get("variants"):
+                            found_d = (si, rv)
+                        break
+                if not found_d:
+                    continue
+                enum_mode = True
+                variants = found_d[1]["variants"]
+                entry_local = found_d[1]["place"]["l"]
+                prefix = S["stmts"][:found_d[0]]
+
+            def target_for(val):
+                if not enum_mode:
+                    want = 1 if val else 0
+                    for v, tgt in t["targets"]:
+                        if int(v) == want:
+                            return tgt
+                    return t["otherwise"]
+                vals = [k_ for k_, nm in variants.items() if nm == val]
+                if len(vals) != 1:
+                    return None
+                for v, tgt in t["targets"]:
+                    if str(v) == str(vals[0]):
+                        return tgt
+                return t["otherwise"]
+
+            def const_of(st):
+                """value a statement assigns as a whole-local constant: bool / variant name, else None"""
+                rv = st.get("rv") or {}
+                if "lhs" not in st or st["lhs"].get("p"):
+                    return None
+                if not enum_mode and rv.get("k") == "use":
+                    c = rv["op"].get("const")
+                    if c is not None and "bool" in c:
+                        return ("v", bool(c["bool"]))
+                if enum_mode and rv.get("k") == "aggr" and rv.get("variant") and rv.get("agg") != "closure":
+                    return ("v", rv["variant"])
+                return None
+
+            def transfer(stmts, state, term=None):
+                """forward: state = {local: value} known to hold a constant"""
+                state = dict(state)
+                for st in stmts:
+                    if "setdiscr" in st:
+                        state.pop(st["setdiscr"]["l"], None)
+                        continue
+                    lhs = st.get("lhs")
+                    if lhs is None:
+                        continue
+                    if lhs.get("p"):
+                        state.pop(lhs["l"], None)
+                        continue
+                    c = const_of(st)
+                    rv = st.get("rv") or {}
+                    if c is not None:
+                        state[lhs["l"]] = c[1]
+                    elif rv.get("k") == "use":
+                        q = rv["op"].get("copy") or rv["op"].get("move")
+                        if q and not q.get("p") and q["l"] in state:
+                            state[lhs["l"]] = state[q["l"]]
+                        else:
+                            state.pop(lhs["l"], None)
+                    else:
+                        if rv.get("k") == "ref" and rv.get("mut") and not rv["place"].get("p"):
+                            state.pop(rv["place"]["l"], None)
+                        state.pop(lhs["l"], None)
+                if term is not None and term["k"] == "call" and not term["dest"].get("p"):
+                    state.pop(term["dest"]["l"], None)
+                return state
+            # constant already known inside S itself
+            st0 = transfer(prefix, {})
+            if entry_local in st0:
+                tg = target_for(st0[entry_local])
+                if tg is not None:
+                    S["term"] = {"k": "goto", "target": tg, "span": t.get("span", {}), "threaded": True}
+                    did = True
+                    break
+                continue
+            # backward region
+            region = {s_i}
+            order = [s_i]
+            qi = 0
+            while qi < len(order) and len(region) <= THREAD_MAX_REGION:
+                x = order[qi]
+                qi += 1
+                for p_ in preds[x]:
+                    if p_ not in region and not blocks[p_].get("cleanup"):
+                        region.add(p_)
+                        order.append(p_)
+            if len(region) > THREAD_MAX_REGION:
+                region = set(order[:THREAD_MAX_REGION])
+            sources = []
+            for q in region:
+                if q == s_i or (s_i, q) in done:
+                    continue
+                if any(const_of(st) is not None for st in blocks[q]["stmts"]):
+                    sources.append(q)
+            for q in sorted(sources):
+                Q = blocks[q]
+                out_q = transfer(Q["stmts"], {}, Q["term"])
+                if not out_q:
+                    continue
+                # forward must-dataflow from q's successors up to S, inside the region
+                sub = set()
+                work = [x for x in _succs_of(Q["term"], n)]
+                while work:
+                    x = work.pop()
+                    if x in sub or x == s_i:
+                        continue
+                    if x not in region:
+                        continue
+                    sub.add(x)
+                    work.extend(_succs_of(blocks[x]["term"], n))
+                if q in sub:
+                    continue          # q lies on a cycle through the region: leave it
+                # keep only blocks that reach S
+                reach_s = {s_i}
+                grew = True
+                while grew:
+                    grew = False
+                    for x in sub:
+                        if x not in reach_s and any(y in reach_s for y in _succs_of(blocks[x]["term"], n)):
+                            reach_s.add(x)
+                            grew = True
+                sub = {x for x in sub if x in reach_s}
+                # only control-only blocks are duplicated (goto / drop / switch): a duplicated call or assert would show up as a second call site
+                if any(blocks[x]["term"]["k"] not in ("goto", "drop", "switch") for x in sub):
+                    continue
+                if not any(y in sub or y == s_i for y in _succs_of(Q["term"], n)):
+                    continue
+                # entries into sub from outside other than q invalidate nothing (they keep using the originals); dataflow only over q-paths
+                IN = {}
+                wl = []
+                for y in _succs_of(Q["term"], n):
+                    if y in sub or y == s_i:
+                        IN[y] = dict(out_q)
+                        wl.append(y)
+                it = 0
+                while wl and it < 400:
+                    it += 1
+                    x = wl.pop()
+                    if x == s_i:
+                        continue
+                    out_x = transfer(blocks[x]["stmts"], IN[x], blocks[x]["term"])
+                    for y in _succs_of(blocks[x]["term"], n):
+                        if y in sub or y == s_i:
+                            if y not in IN:
+                                IN[y] = dict(out_x)
+                                wl.append(y)
+                            else:
+                                merged = {k_: v_ for k_, v_ in IN[y].items() if out_x.get(k_) == v_}
+                                if merged != IN[y]:
+                                    IN[y] = merged
+                                    wl.append(y)
+                if s_i not in IN:
+                    continue
+                at_s = transfer(prefix, IN[s_i])
+                if entry_local not in at_s:
+                    continue
+                tg = target_for(at_s[entry_local])
+                if tg is None:
+                    continue
+                # duplicate sub ∪ {S}
+                new_idx = {}
+                for b_i in sorted(sub | {s_i}):
+                    new_idx[b_i] = len(blocks)
+                    nb = json.loads(json.dumps(blocks[b_i]))
+                    nb["dup_of"] = blocks[b_i].get("dup_of", b_i)
+                    blocks.append(nb)
+                for b_i, ni in new_idx.items():
+                    nb = blocks[ni]
+                    if b_i == s_i:
+                        nb["term"] = {"k": "goto", "target": tg, "span": t.get("span", {}), "threaded": True}
+                        continue
+                    tt = nb["term"]
+                    if "target" in tt and tt["target"] in new_idx:
+                        tt["target"] = new_idx[tt["target"]]
+                    if tt["k"] == "switch":
+                        tt["targets"] = [[v, new_idx.get(b2, b2)] for v, b2 in tt["targets"]]
+                        tt["otherwise"] = new_idx.get(tt["otherwise"], tt["otherwise"])
+                qt = dict(Q["term"])
+                if "target" in qt and qt["target"] in new_idx:
+                    qt["target"] = new_idx[qt["target"]]
+                if qt["k"] == "switch":
+                    qt["targets"] = [[v, new_idx.get(b2, b2)] for v, b2 in qt["targets"]]
+                    qt["otherwise"] = new_idx.get(qt["otherwise"], qt["otherwise"])
+                Q["term"] = qt
+                done.add((s_i, q))
+                for ni in new_idx.values():
+                    done.add((ni, q))
+                did = True
+                break
+            if did:
+                break
+        if not did:
+            break
+        changed = True
+    return changed
+
+
+_PINNED = [False, None]
+
+
+def _pinned_functions():
+    if _PINNED[0] is False:
+        p = os.path.join(os.path.dirname(os.path.dirname(os.path.abspath(__file__))), "tables", "pinned_functions.json")
+        try:
+            with open(p) as fh:
+                _PINNED[1] = set(json.load(fh))
+        except (OSError, ValueError):
+            _PINNED[1] = None
+        _PINNED[0] = True
+    return _PINNED[1]
+
+
 class Program:
     def __init__(self, facts_dir):
         self.fns = {}
@@ -889,7 +1320,23 @@ class Program:
                 d = json.load(fh)
             crate = d["crate"]
             self.crates[crate] = {"n_bodies": d["n_bodies"], "file": fn}
-            for f in d["fns"]:
+            raw = {f["id"]: f for f in d["fns"]}
+            pinned = _pinned_functions()
+            if pinned is not None and not os.environ.get("TTV_NO_INLINE"):
+                def new_helper(fid, _pin=pinned):
+                    base = fid.split("::{closure")[0]
+                    return "{" not in fid and base not in _pin and not fid.startswith("<")
+                self.inlined = getattr(self, "inlined", {})
+                for fid, nd in inline_helpers(raw, new_helper).items():
+                    raw[fid] = nd
+                    self.inlined[fid] = nd["inlined"]
+            if not os.environ.get("TTV_NO_THREAD"):
+                for f in raw.values():
+                    try:
+                        thread_bool_switches(f)
+                    except (KeyError, IndexError, TypeError):
+                        pass
+            for f in raw.values():
                 self.fns[f["id"]] = Fn(f, crate)
             for a in d["adts"]:
                 self.adts[a["path"]] = a
@@ -906,6 +1353,21 @@ class Program:
                     self.trait_impls[it["trait_item"]].append(it["path"])
         self._cg = None
         self._rcg = None
+
+    def family(self, fid):
+        """the bodies that make up function fid for a rule that reads "everything written inside it": the function, its closures and promoted
+        constants, and the same for every helper that was spliced into it"""
+        roots = [fid]
+        d = self.fns[fid].d if fid in self.fns else {}
+        for b in d.get("blocks", []):
+            r = b.get("inl")
+            if r and r not in roots:
+                roots.append(r)
+        out = []
+        for k in self.fns:
+            if any(k == r or k.startswith(r + "::{") for r in roots):
+                out.append(k)
+        return out
 
     # ------------------------------------------------------------ call graph
     def targets(self, call):
